@@ -88,6 +88,7 @@ def generate(rng, tier, index):
             if is_mtl and rng.random() < 0.6:
                 call = C02.gen_mtl_call(rng, spec, roles, dtype, model=model, families=FAMS)
                 call["retain"] = retain
+                C02.fix_retain(spec, call, model)
                 steps.append({"op": "call", "call": call})
             else:
                 st = _gen_backward_step(rng, spec, shape, cands, rg, dtype, retain)
